@@ -376,7 +376,7 @@ struct StringSys {
         static std::vector<OpDesc> o = {
             {"A=\"\"", 0},      {"A=\"a\"", 0},       {"A=\"ab\"", 0},         {"A=String(\"b\\0c\",3)", 0}, {"A=String(\"  a \",4)", 0},
             {"B=\"a\"", 0},     {"B=\"b\"", 0},       {"B=\"ab\"", 0},         {"A=B", 0},                 {"A=move(B)", 0},
-            {"A=A", 0},         {"A=own characters from the second on (const C*)", 0}, {"B=String(A)", 0},   {"B=String(move(A))", 0}, {"A+=B", 0},               {"A+=move(B)", 0},
+            {"A=A", 0},         {"A=own characters from the second on (const C*)", 0}, {"A+=move(A)", 0}, {"B=String(A)", 0},   {"B=String(move(A))", 0}, {"A+=B", 0},               {"A+=move(B)", 0},
             {"A+=A", 0},        {"A+=\"c\"", 0},      {"A+=\"\"", 0},          {"A+='x'", 0},              {"A<<\"d\"", 0},
             {"A<<B", 0},        {"A=A+B", 0},         {"A=A+move(B)", 0},      {"A=A+\"z\"", 0},           {"A=Merge(B,A)", 0},
             {"A.Write(\"pq\",2)", 0}, {"A.Write(A.First()+1,1)", 0},           {"A.Write(A.First(),Length)", 0}, {"A.Write(nullptr,0)", 0},
@@ -496,6 +496,9 @@ struct StringSys {
         } else if (n == "A=A") {
             S &alias = a;
             a        = alias;
+        } else if (n == "A+=move(A)") {
+            a += std::move(a); // appending the string to itself, by move as well
+            ma += MS(ma);
         } else if (n == "A=own characters from the second on (const C*)") {
             if (ma.size() < 2 || ma.find(typename MS::value_type(0)) != MS::npos) {
                 return false; // needs a terminated tail without embedded NUL
